@@ -34,7 +34,8 @@ Definition sym_v (k : N) (m s : term) : bool := sym_verify (TPub k) m s.
 Definition sym_o (s : term) : option (N * term) :=
   match s with TSig k m _ => Some (k, m) | _ => None end.
 Definition id_of_n (k : N) : Z := Z.of_N k.
-Definition inline_of (inl : list Z) (p : Z) : option N := if zin p inl then Some (Z.to_N p) else None.
+Definition inline_of (inl : list Z) (p : Z) : option N :=
+  if (0 <? p) && zin p inl then Some (Z.to_N p) else None.
 
 Record cfg := mkCfg {
   g_np : Z; g_inline : list Z; g_maxprotos : Z; g_pcap : Z; g_timeout : Z;
@@ -306,8 +307,9 @@ Definition is_conn (t : Z) : bool := t =? ConnectedAddrTTL.
 Definition is_rc (t : Z) : bool := t =? RecentlyConnectedAddrTTL.
 Definition is_hi (t : Z) : bool := is_conn t || is_rc t.
 
+Definition no_dump : pdump := mkPD [] [] 0 0 0 0.
 Definition nth_dump (p : Z) (l : list pdump) : pdump :=
-  nth (Z.to_nat (p - 1)) l (mkPD [] [] 0 0 0 0).
+  if p <? 1 then no_dump else nth (Z.to_nat (p - 1)) l no_dump.
 
 (* "validates and was signed by that peer": the signature was issued by the
    envelope's key for exactly (peer-record domain, peer-record type, this
@@ -347,58 +349,107 @@ Definition mon_net (g : cfg) (m : mon) (o : op) : list Z * list Z :=
   | _ => (mn_net m, mn_pend m)
   end.
 
-Definition b2e (code : Z) (b : bool) : list Z := if b then [] else [code].
+(* the peer the step is about: the remote peer of the connection it names *)
+Definition subj_peer (g : cfg) (o : op) : option Z :=
+  match subject o with Some c => Some (peer_of (g_conns g) c) | None => None end.
 
-(* diagnostics: the numbers of the clauses that fail at this step
-     1 a peerstore call keyed by another peer      2 an event naming another peer
-     3 another peer's stored data changed          4 a stored key that does not hash to the peer
-     5 more than maxPeerProtocols protocols        6 more than connectedPeerMaxAddrs addresses
-     7 an address from no legitimate source        8 more than recentlyConnectedPeerMaxAddrs kept
-     9 connected lifetime not left / promoted     10 connected lifetime without a connection
-    11 a wait channel still open after the timeout                                        *)
-Definition mon_step (g : cfg) (m : mon) (o : op) (x : wobs) : list Z :=
-  let conns := g_conns g in
+(* the chunks of a message that was consumed in this step (a Completed event was seen) *)
+Definition consumed (o : op) (x : wobs) : option (list chunk) :=
+  match message_of o with
+  | Some cs => if existsb (fun e => fst e =? 1) (wo_events x) then Some cs else None
+  | None => None
+  end.
+
+(* Disconnected delivered while the swarm lists no connection to the peer *)
+Definition last_disc (g : cfg) (m : mon) (o : op) : bool :=
+  match o with
+  | ODisconnected c _ => negb (connected (g_conns g) (mn_net m) (peer_of (g_conns g) c))
+  | _ => false
+  end.
+
+(* 1: every peerstore call is keyed by the remote peer *)
+Definition cl_calls (g : cfg) (m : mon) (o : op) (x : wobs) : bool :=
+  match subj_peer g o with Some p => forallb (fun q => op_peer q =? p) (wo_calls x) | None => true end.
+(* 2: every event names the remote peer *)
+Definition cl_events (g : cfg) (m : mon) (o : op) (x : wobs) : bool :=
+  match subj_peer g o with Some p => forallb (fun e => snd e =? p) (wo_events x) | None => true end.
+(* 3: what is stored under any other peer is unchanged *)
+Definition cl_others (g : cfg) (m : mon) (o : op) (x : wobs) : bool :=
+  match subj_peer g o with
+  | Some p => forallb (fun q => (q =? p) || pdump_eqb (nth_dump q (mn_dump m)) (nth_dump q (wo_dump x)))
+                      (peers_of (g_np g))
+  | None => true
+  end.
+(* 4: a key that appears under the peer hashes to the peer *)
+Definition cl_key (g : cfg) (m : mon) (o : op) (x : wobs) : bool :=
+  match subj_peer g o with
+  | Some p => let a := d_key (nth_dump p (wo_dump x)) in
+              (a =? d_key (nth_dump p (mn_dump m))) || (id_of_n (Z.to_N a) =? p)
+  | None => true
+  end.
+(* 5: at most maxPeerProtocols protocols *)
+Definition cl_protos (g : cfg) (m : mon) (o : op) (x : wobs) : bool :=
+  match subj_peer g o with
+  | Some p => let a := d_protos (nth_dump p (wo_dump x)) in
+              (zlen a <=? maxPeerProtocols) || zlist_eqb a (d_protos (nth_dump p (mn_dump m)))
+  | None => true
+  end.
+(* 6: after a message was consumed, at most connectedPeerMaxAddrs addresses in the
+      connected / recently-connected classes *)
+Definition cl_cap (g : cfg) (m : mon) (o : op) (x : wobs) : bool :=
+  match subj_peer g o, consumed o x with
+  | Some p, Some _ => cnt is_hi (nth_dump p (wo_dump x)) <=? connectedPeerMaxAddrs
+  | _, _ => true
+  end.
+(* 7: an address that entered (or rose within) those classes comes from the
+      message: the peer's own listen address or an address of a valid own record *)
+Definition cl_source (g : cfg) (m : mon) (o : op) (x : wobs) : bool :=
+  match subj_peer g o, consumed o x with
+  | Some p, Some cs =>
+      forallb (fun at_ => negb (is_hi (snd at_))
+                          || existsb (fun bt => (fst bt =? fst at_) && (snd at_ <=? snd bt))
+                                     (d_addrs (nth_dump p (mn_dump m)))
+                          || allowed p cs (fst at_))
+              (d_addrs (nth_dump p (wo_dump x)))
+  | _, _ => true
+  end.
+(* 8: the last disconnect gives the recently-connected lifetime to at most
+      recentlyConnectedPeerMaxAddrs more addresses *)
+Definition cl_recent (g : cfg) (m : mon) (o : op) (x : wobs) : bool :=
+  match subj_peer g o with
+  | Some p => if last_disc g m o
+              then cnt is_rc (nth_dump p (wo_dump x))
+                   <=? cnt is_rc (nth_dump p (mn_dump m)) + recentlyConnectedPeerMaxAddrs
+              else true
+  | None => true
+  end.
+(* 9: after it, only addresses that were above the connected class stay there *)
+Definition cl_fallback (g : cfg) (m : mon) (o : op) (x : wobs) : bool :=
+  match subj_peer g o with
+  | Some p => if last_disc g m o
+              then cnt (fun t => ConnectedAddrTTL <=? t) (nth_dump p (wo_dump x))
+                   <=? cnt (fun t => ConnectedAddrTTL <? t) (nth_dump p (mn_dump m))
+              else true
+  | None => true
+  end.
+(* 10: the connected lifetime only while a connection exists (or its
+       Disconnected notification is still to be delivered) *)
+Definition cl_connected (g : cfg) (m : mon) (o : op) (x : wobs) : bool :=
   let '(net', pend') := mon_net g m o in
-  let per_subject :=
-    match subject o with
-    | None => []
-    | Some c =>
-        let p := peer_of conns c in
-        let before := nth_dump p (mn_dump m) in
-        let after := nth_dump p (wo_dump x) in
-        b2e 1 (forallb (fun q => op_peer q =? p) (wo_calls x))
-        ++ b2e 2 (forallb (fun e => snd e =? p) (wo_events x))
-        ++ b2e 3 (forallb (fun q => (q =? p) || pdump_eqb (nth_dump q (mn_dump m)) (nth_dump q (wo_dump x)))
-                          (peers_of (g_np g)))
-        ++ b2e 4 ((d_key after =? d_key before) || (id_of_n (Z.to_N (d_key after)) =? p))
-        ++ b2e 5 ((zlen (d_protos after) <=? maxPeerProtocols) || zlist_eqb (d_protos after) (d_protos before))
-        ++ match message_of o with
-           | Some cs =>
-               if existsb (fun e => fst e =? 1) (wo_events x) then
-                 b2e 6 (cnt is_hi after <=? connectedPeerMaxAddrs)
-                 ++ b2e 7 (forallb (fun at_ => negb (is_hi (snd at_))
-                                              || existsb (fun bt => (fst bt =? fst at_) && (snd at_ <=? snd bt)) (d_addrs before)
-                                              || allowed p cs (fst at_))
-                                   (d_addrs after))
-               else []
-           | None => []
-           end
-        ++ match o with
-           | ODisconnected _ _ =>
-               if connected conns (mn_net m) p then []
-               else b2e 8 (cnt is_rc after <=? cnt is_rc before + recentlyConnectedPeerMaxAddrs)
-                    ++ b2e 9 (cnt (fun t => ConnectedAddrTTL <=? t) after <=? cnt (fun t => ConnectedAddrTTL <? t) before)
-           | _ => []
-           end
-    end in
-  per_subject
-  ++ b2e 10 (forallb (fun q => connected conns net' q || existsb (fun c => peer_of conns c =? q) pend'
-                               || (cnt is_conn (nth_dump q (wo_dump x)) =? 0))
-                     (peers_of (g_np g)))
-  ++ match o with
-     | OTimeout _ => b2e 11 (forallb (fun b => b) (wo_chans x))
-     | _ => []
-     end.
+  forallb (fun q => connected (g_conns g) net' q || existsb (fun c => peer_of (g_conns g) c =? q) pend'
+                    || (cnt is_conn (nth_dump q (wo_dump x)) =? 0))
+          (peers_of (g_np g)).
+(* 11: once the identify timeout has elapsed every wait channel is closed *)
+Definition cl_wait (g : cfg) (m : mon) (o : op) (x : wobs) : bool :=
+  match o with OTimeout _ => forallb (fun b => b) (wo_chans x) | _ => true end.
+
+Definition clauses : list (Z * (cfg -> mon -> op -> wobs -> bool)) :=
+  [(1, cl_calls); (2, cl_events); (3, cl_others); (4, cl_key); (5, cl_protos); (6, cl_cap);
+   (7, cl_source); (8, cl_recent); (9, cl_fallback); (10, cl_connected); (11, cl_wait)].
+
+(* diagnostics: the numbers of the clauses that fail at this step *)
+Definition mon_step (g : cfg) (m : mon) (o : op) (x : wobs) : list Z :=
+  flat_map (fun kc : Z * (cfg -> mon -> op -> wobs -> bool) => if snd kc g m o x then [] else [fst kc]) clauses.
 
 Definition mon_next (g : cfg) (m : mon) (o : op) (x : wobs) : mon :=
   let '(n, p) := mon_net g m o in mkMon n p (wo_dump x).
